@@ -1,5 +1,5 @@
 """C10 — the kernel's address-to-domain table always mirrors the live DNS cache."""
-import json, os, re
+import json, os, re, threading
 from verifkit import read_lines, REPO, CACHE
 
 REQUIRED = [
@@ -21,6 +21,21 @@ REQUIRED = [
     "DaeVerif.C10.Props.unguarded_worker_breaks_mirror",
     "DaeVerif.C10.Props.failed_put_sync_breaks_mirror",
     "DaeVerif.C10.Props.refresh_after_failed_put_repairs",
+    "DaeVerif.C10.Props.retry_after_partial_failure_repairs",
+    "DaeVerif.C10.Props.late_retry_after_failed_delete_does_not_repair",
+    "DaeVerif.C10.Props.capped_batch_within_room_is_complete",
+    "DaeVerif.C10.Props.capped_batch_applies_a_prefix",
+    "DaeVerif.C10.Props.retry_after_capacity_failure_repairs",
+    "DaeVerif.C10.Props.crun_is_crunP_ok",
+    "DaeVerif.C10.Props.table_mirrors_tracker_under_failures",
+    "DaeVerif.C10.Props.tracker_matches_cache_on_clean_keys",
+    "DaeVerif.C10.Props.clean_addresses_mirror_cache",
+    "DaeVerif.C10.Props.table_mirrors_cache_when_no_key_is_dirty",
+    "DaeVerif.C10.Props.failed_removal_leaves_orphan",
+    "DaeVerif.C10.Props.mutex_serialises_syncs",
+    "DaeVerif.C10.Props.mutex_serialises_syncs_no_orphan",
+    "DaeVerif.C10.Props.table_during_a_call",
+    "DaeVerif.C10.Props.early_unlock_breaks_mirror",
 ]
 
 # generator reach: below a floor the run is not evidence (exit 2). Values = ~40 % of what quick / seed 1 yields.
@@ -35,47 +50,31 @@ FLOORS = {
     "c.op.work_by_real_worker": 20, "c.histories_with_late_started_worker": 15, "c.op.put_with_failed_publish": 15, "c.op.fam_removed_several_scopes": 2,
     "gen.answers.large_6_64": 100, "gen.answers.huge_300": 5, "gen.answers.unspecified": 500, "gen.bitmap.zero": 800,
     "gen.host.mixed_case": 300,
+    # round 8
+    "t.histories_on_real_kernel_map": 80, "t.histories_with_small_map_capacity": 20, "t.op.refused_by_kernel_for_capacity": 40,
+    "t.op.clear": 80, "c.histories_on_real_kernel_map": 60, "c.op.reload_without_controller_reuse": 15,
+    "c.op.reload_committed_by_constructor_tail": 6, "c.ops_with_failed_update_batch": 20, "c.ops_with_failed_delete_batch": 4,
+    "c.op.removal_with_failed_batch": 4, "c.op.reload_with_failed_batch": 3,
+    "s.histories": 60, "s.histories_with_a_blocked_goroutine": 40, "s.steps_with_a_goroutine_blocked_on_the_mutex": 200,
+    "s.histories_with_a_call_started_while_another_is_inside": 40,
 }
 
-HOOK_DECLS = '''
-
-// ---- added by /verif/checks/c10.py (generated copy, never written to /repo) ----
-var VerifC10BatchUpdateHook func(m *ebpf.Map, keys interface{}, values interface{}) (int, error)
-var VerifC10BatchDeleteHook func(m *ebpf.Map, keys interface{}) (int, error)
-var VerifC10BatchDeleteAllHook func(m *ebpf.Map) error
-'''
-
-
-def gen_stub_with_observer(ctx):
-    """Copy /repo/control/bpf_stub.go, replacing the bodies of the three batch stubs by forwards to
-    package-level observer variables (the stubs otherwise fail unconditionally, so what syncOwner sends to
-    domain_routing_map could not be observed). Everything else in the file is byte-identical."""
-    src_path = os.path.join(REPO, "control", "bpf_stub.go")
-    src = open(src_path, encoding="utf-8").read()
-    subs = [
-        (r"func BpfMapBatchUpdate\(m \*ebpf\.Map, keys interface\{\}, values interface\{\}, opts \*ebpf\.BatchOptions\) \(n int, err error\) \{\n.*?\n\}\n",
-         "func BpfMapBatchUpdate(m *ebpf.Map, keys interface{}, values interface{}, opts *ebpf.BatchOptions) (n int, err error) {\n"
-         "\tif VerifC10BatchUpdateHook != nil {\n\t\treturn VerifC10BatchUpdateHook(m, keys, values)\n\t}\n"
-         "\treturn 0, errBpfObjectsUnavailable\n}\n"),
-        (r"func BpfMapBatchDelete\(m \*ebpf\.Map, keys interface\{\}\) \(n int, err error\) \{\n.*?\n\}\n",
-         "func BpfMapBatchDelete(m *ebpf.Map, keys interface{}) (n int, err error) {\n"
-         "\tif VerifC10BatchDeleteHook != nil {\n\t\treturn VerifC10BatchDeleteHook(m, keys)\n\t}\n"
-         "\treturn 0, errBpfObjectsUnavailable\n}\n"),
-        (r"func BpfMapBatchDeleteAll\[K any, V any\]\(m \*ebpf\.Map\) error \{\n.*?\n\}\n",
-         "func BpfMapBatchDeleteAll[K any, V any](m *ebpf.Map) error {\n"
-         "\tif VerifC10BatchDeleteAllHook != nil {\n\t\treturn VerifC10BatchDeleteAllHook(m)\n\t}\n"
-         "\treturn errBpfObjectsUnavailable\n}\n"),
-    ]
-    out = src
-    for pat, rep in subs:
-        out, n = re.subn(pat, lambda _m, rep=rep: rep, out, count=1, flags=re.S)
-        if n != 1:
-            ctx.say("TRANSLATOR-FAILED c10 stub observer: pattern not found in control/bpf_stub.go:", pat[:60])
-            return None
-    out += HOOK_DECLS
-    path = os.path.join(ctx.out, "bpf_stub_c10.go")  # per run directory (runs of other seeds / repos never share it)
-    open(path, "w", encoding="utf-8").write(out)
-    return {src_path: path}
+def gen_overlay(ctx):
+    """translators/c10wrap regenerates (1) a copy of control/bpf_utils.go whose three batch functions are renamed and
+    wrapped by observers that receive a closure running the production function, (2) the DNS steps of
+    CommitPreparedDatapath / of newControlPlane's non-delayed tail as callable functions. Fails closed."""
+    from verifkit import sh, go_env, VERIF
+    gen = os.path.join(ctx.out, "gen")
+    os.makedirs(gen, exist_ok=True)
+    rc, out, dt = sh(["go", "run", "main.go", os.path.join(REPO, "control"), gen],
+                     cwd=os.path.join(VERIF, "translators", "c10wrap"), env=go_env(), timeout=600)
+    ctx.log.write(f"$ c10wrap [{dt:.1f}s rc={rc}] {out}\n")
+    if rc != 0:
+        ctx.say("TRANSLATOR-FAILED c10wrap (an anchor in control/bpf_utils.go or control/control_plane.go moved):", out[-1500:])
+        return None
+    ctx.cov["translator_c10wrap"] = out.strip()[-300:]
+    return {os.path.join(REPO, "control", "bpf_utils.go"): os.path.join(gen, "bpf_utils_c10.go"),
+            os.path.join(REPO, "control", "zz_verif_c10_commit_gen.go"): os.path.join(gen, "c10_commit_gen.go")}
 
 
 def fields(line):
@@ -94,24 +93,37 @@ def split(line):
 
 def run(ctx):
     ctx.trusted += [
-        "kernel hash-map semantics of domain_routing_map (batch update = upsert of every pair, batch delete = removal of every key; a failing batch writes nothing) — modelled as applyEmit / TK.syncO; map capacity, partial application of a failing batch and the simulated per-key fallback of bpf_utils.go are not modelled",
-        "checks/c10.py generates a copy of control/bpf_stub.go in which BpfMapBatchUpdate/Delete/DeleteAll forward to observer variables (overlay REPLACE; nothing else in the file changes)",
+        "kernel hash-map semantics of domain_routing_map: modelled as applyEmit / TK.syncO / batchUpdCap (upsert of every pair in order, E2BIG for a new key in a full map with the prefix kept, removal of every key); tied in the kernel-map histories, where the table is a real BPF_MAP_TYPE_HASH (BPF_F_NO_PREALLOC) created by the harness and written by the production BpfMapBatchUpdate/Delete/DeleteAll; in the shadow histories the hooks keep a Go map instead. The pre-5.6 simulated per-key fallback of bpf_utils.go is not executed on this kernel",
+        "translators/c10wrap generates a copy of control/bpf_utils.go in which BpfMapBatchUpdate/Delete/DeleteAll are renamed (bodies untouched) and wrapped by observers that can run them (overlay REPLACE), and regenerates the DNS steps of CommitPreparedDatapath and of newControlPlane's non-delayed tail in source order (commitInterfaceBindings, startConnStateJanitor, markReady dropped by name; any other new call makes the translator refuse => exit 2); real build of package control with the synthetic bpf2go file of translators/fakebpf",
         "DnsCache.DomainBitmap comes from a stub routing.DomainMatcher whose answer the generator chooses (MatchDomainBitmap is C11's subject); the production NewCache closure and replayDnsReloadCache are the real ones",
         "atomic-step model: each cache operation (cache-map mutation + its tracker sync) is one step; goroutine schedules are outside the property's quantifier",
         "in two thirds of the cache histories the refresh worker goroutine and the janitor ticker are replaced by explicit `work` / `jan` ops that call the real processBpfUpdateTask / evictExpiredDnsCache on the facade those goroutines are bound to; in every third history the controller comes from NewDnsController and the real goroutines run; time is virtual (testing/synctest)",
         "a reload is composed as production does (CloneDnsCache, NewDnsController for the new plane, clearReloadDomainRoutingMap + replayDnsReloadCache = CommitPreparedDatapath's DNS steps, ControlPlane.ReuseDNSControllerFrom) but CommitPreparedDatapath / Serve themselves are not called (commitInterfaceBindings needs a network namespace); the transient state between the commit and the reuse hook is not observed",
         "expiry, refresh and LRU policies are observed, not predicted: the model is told which entry a lookup / janitor run evicted and whether a refresh was queued; the theorems hold for every such choice. Predictions are reported as drift notes only",
     ]
+    # the Go side (two translators, then the test binary) is built while Lean proves and audits: 3 jobs at most
+    built = {}
+
+    def build_go():
+        parts = {}
+        t1 = threading.Thread(target=lambda: parts.__setitem__("ov", gen_overlay(ctx)))
+        t2 = threading.Thread(target=lambda: parts.__setitem__("fake", ctx.fake_bpf_overlay()))
+        t1.start(); t2.start(); t1.join(); t2.join()
+        if parts.get("ov") and parts.get("fake"):
+            built["bin"] = ctx.go_test_build("control", ["control/c10_test.go"], "c10", tags="",
+                                             extra_overlay={**parts["fake"], **parts["ov"]})
+
+    th = threading.Thread(target=build_go)
+    th.start()
     ctx.prove(["DaeVerif.C10.Props"], ["DaeVerif.C10.Props"], ["DaeVerif/C10/*.lean"], extra_targets=["c10drv"])
     ctx.required_theorems(REQUIRED)
-
-    ov = gen_stub_with_observer(ctx)
-    binp = ov and ctx.go_test_build("control", ["control/c10_test.go"], "c10", extra_overlay=ov)
+    th.join()
+    binp = built.get("bin")
     if not binp:
         return 2
     rc, out = ctx.run_harness(binp, "TestVerifC10")
     streams = {}
-    for name in ("c10t", "c10c"):
+    for name in ("c10t", "c10s", "c10c"):
         ops, impl, model = (os.path.join(ctx.out, name + "." + e) for e in ("ops", "impl", "model"))
         if rc != 0 or not os.path.exists(ops):
             ctx.say("HARNESS-FAILED", out[-3000:])
@@ -151,7 +163,7 @@ def run(ctx):
                 f = fields(st)
                 # property-level oracle on the implementation: the shadow of the kernel table equals the
                 # specification evaluated on the real cache contents
-                if f.get("m") == "0" and any(o.startswith("putf ") for o in history_of(lops, i + 1)):
+                if f.get("m") == "0" and any(o.startswith("!") for o in history_of(lops, i + 1)):
                     # an injected publish failure earlier in this history: the table may lag (theorem
                     # failed_put_sync_breaks_mirror); model and implementation must still agree (strict diff)
                     n_lag += 1
@@ -171,25 +183,26 @@ def run(ctx):
                 f"(batch shape, refresh queue, expiry/refresh/LRU policy, error wording, tracker layout); first: {json.dumps(drift_samples[0])[:500]}")
     handle_bigreload_probe(ctx)
     handle_race_probe(ctx)
+    handle_handover_probe(ctx)
 
     stats = json.load(open(os.path.join(ctx.out, "c10.stats.json")))
     cops = read_lines(streams["c10c"][0])
-    ctx.samples = stats["samples"][:4] + [o for o in cops if o.startswith("put ")][:3] + [o for o in cops if o.startswith(("fam ", "jan ", "hot ", "look ", "reload "))][:5]
+    ctx.samples = stats["samples"][:4] + [o for o in cops if o.startswith("put ")][:3] + [o for o in cops if o.startswith(("fam ", "jan ", "hot ", "look ", "reload ", "reloadx ", "!"))][:5]
     ctx.cov["input_distribution"] = stats["counters"]
     low = {k: (stats["counters"].get(k, 0), v) for k, v in FLOORS.items() if stats["counters"].get(k, 0) < v}
     ctx.cov["generator_floors"] = {"floors": FLOORS, "below": low}
     ctx.assumptions = [
         "histories are generated (seeded): 1-6 owners / cache keys (10 % of the cache histories 10-40), address pool 1-8 (forces overlap), answers of 0-5 records (3.6 % 6-64, 0.4 % 300), 1-60 ops",
-        "batch syscalls of cache operations succeed, except the update batch of 4 % of the puts outside real-loops mode (`putf` lines); failing delete batches are injected in the tracker stream only",
+        "batch syscalls of cache operations succeed, except in 7 % of the cache operations outside real-loops mode, where the 1st or 2nd update (or delete) batch the operation sends fails (`!uf:<owner>` / `!df:<owner>` prefixes); after such a line the mirror flag may be 0, model and implementation must still agree",
         "whether a put stores its answer, which entries lookups / janitor evict and whether a refresh is queued are observed and told to the model",
     ]
     rc_floor = 0
     if getattr(ctx, "harness_failed", False):
         rc_floor = 2
-    skipped = stats["counters"].get("c.rollback_skipped_no_bpf_privilege", 0)
+    skipped = stats["counters"].get("c.rollback_skipped_no_bpf_privilege", 0) + stats["counters"].get("kmap.unavailable_no_bpf_privilege", 0)
     if skipped:
-        ctx.say(f"PRIVILEGE-MISSING: this process cannot create kernel BPF maps (CAP_BPF / CAP_SYS_ADMIN); {skipped} rollback ops "
-                "(real RebuildReloadDatapath writes routing_meta_map) were skipped — the run is not evidence (exit 2)")
+        ctx.say(f"PRIVILEGE-MISSING: this process cannot create kernel BPF maps (CAP_BPF / CAP_SYS_ADMIN); {skipped} rollback ops / kernel-map histories "
+                "(real RebuildReloadDatapath writes routing_meta_map; half of the histories run on a real kernel hash map) were skipped — the run is not evidence (exit 2)")
         rc_floor = 2
     if low:
         ctx.say("GENERATOR-BELOW-FLOOR (counter: got < floor): " + json.dumps(low))
@@ -222,6 +235,44 @@ def handle_bigreload_probe(ctx):
     if f.get("mirror") != "1":
         ctx.report("after a reload restoring 1500 cached names (put h0..h1499 one A record each; reload; drain the refresh worker) the kernel table does not hold "
                    "every address the cache lists: " + line[:300], {"probe": line, "history": ["put h<i>.example.1 (i=0..1499)", "reload", "work*"]})
+
+
+HANDOVER_KEY = "c10-no-reuse-reload-old-generation-writes-shared-map"
+HANDOVER_WHAT = ("a staged reload that does NOT reuse the DNS controller (dns section changed) lets the old generation keep writing the shared "
+                 "domain_routing_map through its own tracker after the new generation's CommitPreparedDatapath: gen1 put a.com {1.2.3.4}; clone; gen2 commit "
+                 "(clear + replay); gen1 caches b.com {10.0.0.1}; gen1 closed => live cache {a.com}, table also holds 10.0.0.1 with gen1's rule bits, never deleted")
+
+
+def handle_handover_probe(ctx):
+    """Inside the property: a reload WITHOUT controller reuse while the old generation still caches an answer."""
+    path = os.path.join(ctx.out, "c10.handover.txt")
+    if not os.path.exists(path):
+        ctx.say("HARNESS-FAILED hand-over probe produced no output")
+        ctx.harness_failed = True
+        return
+    line = open(path).read().strip()
+    ctx.cov["handover_probe"] = line
+    f = fields(line)
+    if not line.startswith("handover "):
+        ctx.say("HARNESS-FAILED hand-over probe did not run as designed: " + line[:300])
+        ctx.harness_failed = True
+        return
+    if f.get("mirror") != "1":
+        listed = any(k.get("key") == HANDOVER_KEY for k in ctx.known)
+        what = HANDOVER_WHAT + ": " + line[:300]
+        ctx.cov.setdefault("candidate_findings", []).append({"key": HANDOVER_KEY, "what": what, "proposed_patch": "design_notes/C10.fix6.patch"})
+        if not listed:
+            # not (yet) listed by the coordinator: printed as a note, never a VIOLATION; once the key is in
+            # known_findings.jsonl it is reported through ctx.report (KNOWN-FINDING line while open)
+            ctx.say("note: CANDIDATE FINDING key=" + HANDOVER_KEY + " (reproduced on the real code, proposed patch design_notes/C10.fix6.patch): " + what[:600])
+            return
+        ctx.report("reload without DNS-controller reuse (staged same-port reload whose dns section changed): gen1 put a.com {1.2.3.4}; clone; gen2 built with its own "
+                   "controller; gen2 CommitPreparedDatapath (clear + replay of the clone through gen2's tracker); gen1, still serving, caches b.com {10.0.0.1}: "
+                   "published through gen1's tracker into the SAME domain_routing_map with gen1's rule bits; gen1 retired (DnsController.Close runs no callbacks) "
+                   "=> the live cache (gen2) holds a.com only, the table also holds 10.0.0.1, and no tracker will ever delete it: " + line[:300],
+                   {"probe": line, "history": ["gen1: put a.com.1 A 1.2.3.4 bits{0}", "CloneDnsCache", "gen2: NewDnsController + pendingDnsReloadCache",
+                                               "gen2: CommitPreparedDatapath (DNS steps)", "gen1: put b.com.1 A 10.0.0.1 bits{0}", "gen1: DnsController.Close"]},
+                   key="c10-no-reuse-reload-old-generation-writes-shared-map")
 
 
 def history_of(ops, lineno):
